@@ -328,7 +328,7 @@ fn step_case<const D: usize>(kinds: [u8; D]) {
 }
 
 vharness! {
-    /// @prop C14,C01,C19 @tier quick @mode fast @cost 2 @funcs Path::step,Store::truncate,Ref::downcast @bounds decision stack of depth 2, kinds [schedule,schedule], 3 symbolic threads per schedule (all 6 states), symbolic exploring flags
+    /// @prop C14,C01,C19,C16 @tier quick @mode fast @cost 2 @funcs Path::step,Store::truncate,Ref::downcast @bounds decision stack of depth 2, kinds [schedule,schedule], 3 symbolic threads per schedule (all 6 states), symbolic exploring flags
     /// Path::step returns true iff some exploring entry has an unexplored alternative; it cuts the stack above the deepest such entry, leaves everything below untouched, retires the previous choice (Visited) and activates the lowest pending thread: strict depth-first advance, no revisits.
     #[cfg_attr(kani, kani::unwind(8))]
     fn path_step_ss() { step_case([0, 0]) }
@@ -772,4 +772,27 @@ pub(crate) fn seed_preempt(path: &mut Path, to: usize, n_threads: usize) {
     let ex = path.exploring;
     path.branches.insert(Schedule { preemptions: 0, initial_active: None, threads, prev: None, exploring: ex });
     path.pos = 0;
+}
+
+/// One exploring scheduling decision [thread 0 Active, thread 1 Skip], already traversed.
+pub(crate) fn seed_schedule_active0_skip1(path: &mut Path) {
+    let mut threads = [Thread::Disabled; MAX_THREADS];
+    threads[0] = Thread::Active;
+    threads[1] = Thread::Skip;
+    path.branches.insert(Schedule { preemptions: 0, initial_active: Some(0), threads, prev: None, exploring: true });
+    path.pos = 1;
+}
+
+/// State code of thread `t` in the schedule entry at `index` (0 Disabled, 1 Skip, 2 Yield, 3 Pending, 4 Active, 5 Visited).
+pub(crate) fn thread_code_at(path: &Path, index: usize, t: usize) -> u8 {
+    let s = snap(path, index);
+    let mut r = NONE;
+    let mut k = 0;
+    while k < MAX_THREADS {
+        if k == t {
+            r = s.threads[k];
+        }
+        k += 1;
+    }
+    r
 }
